@@ -27,11 +27,11 @@ NEG = (-1.0, -0.5)
 
 
 def classes_required(tier):
-    return [c for c in CLASSES if c != "negative_values_thorough" or tier != "quick"]
+    return list(CLASSES)
 
 
 def bounds(tier, seed):
-    return {"palette": list(PALETTES[seed % 4]) + (list(NEG) if tier != "quick" else []),
+    return {"palette": list(PALETTES[seed % 4]) + list(NEG), "sign_mixed_tables": "G<=2 (quick), all plain/empty tables (thorough)",
             "G_plain": [1, 2, 3] + ([4] if tier != "quick" else []),
             "control_groups_per_stratum": 2 if tier == "quick" else 3,
             "mean_metric_n_max": 3 if tier == "quick" else 4}
@@ -41,7 +41,7 @@ def cases(tier, seed):
     A = list(PALETTES[seed % 4])
     A2 = A + (list(NEG) if tier != "quick" else [])
     for G in (1, 2, 3):
-        for v in itertools.product(A2, repeat=G + 1):
+        for v in itertools.product(A2 if (tier != "quick" or G == 3) else A + list(NEG), repeat=G + 1):
             if G == 1 and v[0] != v[1]:
                 continue
             yield {"mode": "plain", "gv": list(v[:-1]), "ov": v[-1]}
